@@ -56,8 +56,12 @@ func advanceTarget(w *cworld.World, kind string) (time.Time, bool) {
 	case "ticket-end-1s", "ticket-end+1s":
 		var best time.Time
 		for _, e := range w.Client.VerifCache() {
-			if e.EndTime.After(now) && (best.IsZero() || e.EndTime.Before(best)) {
-				best = e.EndTime
+			end := e.EndTime
+			if is := issuedFor(w, e.SPN, e.Ticket); is != nil {
+				end = is.End // what the KDC issued, should the client's own record of it be wrong
+			}
+			if end.After(now) && (best.IsZero() || end.Before(best)) {
+				best = end
 			}
 		}
 		if best.IsZero() {
@@ -217,10 +221,16 @@ func replay(o cworld.Opts, hist []string) ([]stepResult, string, []string) {
 					res = append(res, r)
 					return // event not applicable in this state: history is not extended
 				}
+				stepReq := nreq
 				if ev == "adv:elapse-2-lifetimes" {
 					// time passes, it does not jump: every timer on the way fires at its own instant and the
 					// goroutines it wakes run before the next one
 					for n := 0; n < 64; n++ {
+						before := totalRequests(w)
+						if n > 0 && before-stepReq > 12 {
+							r.Viol = append(r.Viol, violation{"unbounded-exchanges", fmt.Sprintf("%d KDC requests after one timer", before-stepReq)})
+						}
+						stepReq = before
 						var next time.Time
 						for _, tm := range vclock.PendingTimers() {
 							if tm.After(vclock.Now()) && tm.Before(t) && (next.IsZero() || tm.Before(next)) {
@@ -247,10 +257,15 @@ func replay(o cworld.Opts, hist []string) ([]stepResult, string, []string) {
 				}
 				r.Viol = append(r.Viol, violation{"request:" + classify(v), v})
 			}
-			if r.Err != "" && (ev == "login" || strings.HasPrefix(ev, "ticket:")) && w.Client.Credentials.UserName() != "" {
+			if r.Err != "" && o.Cred == "ccache" && !tgtValid(w) {
+				// a client built from a credential cache has nothing to log in with once its TGT has ended (documented)
+			} else if r.Err != "" && (ev == "login" || strings.HasPrefix(ev, "ticket:")) && w.Client.Credentials.UserName() != "" {
 				r.Viol = append(r.Viol, violation{"operation-fails-against-a-conformant-kdc:" + strings.SplitN(ev, ":", 2)[0], r.Err})
 			}
-			if n := totalRequests(w) - nreq; n > 12 {
+			// one operation (or one timer) leads to a bounded number of exchanges; while time elapses over many timers the
+			// bound applies to each of them (above): close to the end of a TGT that cannot be extended the renewal intervals
+			// shrink geometrically, which real time cuts off at a round trip and virtual time only at a nanosecond
+			if n := totalRequests(w) - nreq; n > 12 && ev != "adv:elapse-2-lifetimes" {
 				r.Viol = append(r.Viol, violation{"unbounded-exchanges", fmt.Sprintf("%d KDC requests for one event", n)})
 			}
 			r.Key = canon(w)
@@ -270,6 +285,18 @@ func replay(o cworld.Opts, hist []string) ([]stepResult, string, []string) {
 		}
 	}
 	return res, x.Panic, blocked
+}
+
+// tgtValid: the newest TGT the home KDC issued to the user is still inside its validity period.
+func tgtValid(w *cworld.World) bool {
+	now := vclock.Now()
+	var end time.Time
+	for _, is := range w.KDC.Issued {
+		if len(is.SName) == 2 && is.SName[0] == "krbtgt" && is.SName[1] == cworld.Realm && is.End.After(end) {
+			end = is.End
+		}
+	}
+	return now.Before(end)
 }
 
 func totalRequests(w *cworld.World) int {
@@ -469,6 +496,17 @@ func Run(c *engine.Ctx) {
 	r2 := r
 	r2.FreshRenewKey = true
 	deep = append(deep, r2)
+	// clients built from a credential cache that holds a TGT and a service ticket with half the TGT's lifetime:
+	// not renewable, renewable, and renewable against a KDC that replaces the session key on renewal
+	for i := 0; i < 3; i++ {
+		cc := cworld.DefaultOpts()
+		cc.Cred, cc.TicketLifetime = "ccache", 10*time.Minute
+		if i > 0 {
+			cc.RenewLifetime, cc.Forwardable = time.Hour, true
+		}
+		cc.FreshRenewKey = i == 2
+		deep = append(deep, cc)
+	}
 	for _, o := range deep {
 		s, t, e := bfs(c, o, depthDefault, maxStates)
 		states, transitions, exh = states+s, transitions+t, exh && e
